@@ -60,6 +60,10 @@ type Suite struct {
 
 var suites = map[string]*Suite{}
 
+// children are sub-commands a suite may run in a fresh process of this same binary (`harness -child <name> args...`),
+// e.g. to turn a race-detector report (exit status / stderr of the child) into an oracle failure of the parent's case.
+var children = map[string]func(args []string){}
+
 func register(s *Suite) { suites[s.Name] = s }
 
 type failure struct {
@@ -185,6 +189,14 @@ func readCase(path string) ([]string, error) {
 }
 
 func main() {
+	if len(os.Args) > 2 && os.Args[1] == "-child" {
+		if f, ok := children[os.Args[2]]; ok {
+			f(os.Args[3:])
+			return
+		}
+		fmt.Fprintln(os.Stderr, "unknown child", os.Args[2])
+		os.Exit(2)
+	}
 	var (
 		suiteName = flag.String("suite", "", "suite name")
 		seed      = flag.Int64("seed", 1, "PRNG seed")
